@@ -172,7 +172,15 @@ func shapeBuild(r *crun, rng *core.Rng, kind, label string) (out *advTx) {
 	case "custodian-update-garbage":
 		tx := base(xin)
 		tx.AddOutputWithType(common.OutputTypeCustodianUpdateNodes, user(1), common.NewThresholdScript(64), xin.Amount, seedOf(0))
-		tx.Extra = make([]byte, 64+rng.IntN(2000))
+		// lengths around the parser's structural boundaries (header 64, entry 161/353..., trailing signature 64)
+		n := 64 + rng.IntN(2000)
+		if rng.Chance(0.6) {
+			n = []int{0, 1, 63, 64, 65, 100, 127, 128, 129, 64 + 161, 64 + 161 + 63, 64 + 161 + 64, 64 + 7*161 + 64, 64 + 7*161 + 63}[rng.IntN(14)]
+			if rng.Chance(0.3) {
+				n = rng.IntN(300)
+			}
+		}
+		tx.Extra = make([]byte, n)
 		rng.Bytes(tx.Extra)
 		a.tx = sign(tx, xin)
 	case "custodian-slash-typed":
